@@ -9,7 +9,8 @@ TARGETS = ["NetqasmVerif.Props.C08"]
 M = "NetqasmVerif.Props.C08"
 THEOREMS = [(M, "NQ.C08." + n) for n in [
     "expansions_have_no_branch", "index_is_expansion_start", "index_monotone", "output_structure",
-    "branch_lands_on_expansion", "nongate_order",
+    "branch_lands_on_expansion", "nongate_order", "scratch_ok", "transpile_simulates_partial",
+    "transpile_simulates_final_partial", "pad_is_set", "set_writes_gen",
     "f10_counterexample_asserts", "f10_counterexample_stale", "f26_fixed_witness"]]
 TRANSLATORS = ["nv_expand"]
 LEVEL_TEXT = (
